@@ -8,7 +8,7 @@ every generated table) implies the theorems below about `run A` — the model of
 import Emboss.Lemmas.Lr1Examples
 import Emboss.Lemmas.Lr1Fast
 import Emboss.Lemmas.Lr1Term
-import Emboss.Lemmas.Lr1Gen
+import Emboss.Lemmas.Lr1GenValid
 import Emboss.Lemmas.Lr1TermCex
 namespace Emboss.Lr1
 
@@ -112,24 +112,45 @@ theorem C08_terminates_accepting {G : Grammar} {A : Automaton} {C : Cert} (hv : 
   obtain ⟨f, hf⟩ := run_complete hv hd
   exact ⟨f, t, hf f (Nat.le_refl _)⟩
 
-/-! ### Level B: the generator model `gen` (Model/Lr1Gen.lean), closure / goto core
+/-! ### Level B: the generator model `gen` (Model/Lr1Gen.lean)
 
-Full statement (NOT proved):
-     theorem C08_gen_valid (h : gen G = some o) (hc : o.conflicts = false) : Valid G o.aut o.cert
-   Proved below: the `VClosure` and `VStart` conjuncts for every output of `gen` (conflict-free or
-   not), and the specification of `closure` / `gotoSet` from which `VKernel`'s item condition
-   follows.  Missing: `VWf` (lookup arrays), `VTrans`/`VKernel` over the BFS numbering, `VComplete` /
-   `VActJust` (action loop), `VOrder` (a justification order of the sorted item lists), `VFirst`.
-   Until then the remaining conjuncts are discharged at run time: `gen G` is compared with the real
-   `Grammar.parser()` on every grammar of the run (identical item sets, numbering, conflict flag,
-   tables — driver op `GEN`), and the real tables are validated (`LRVALID`). -/
+`gen G` models `Grammar(start, productions).parser()`: `_compute_symbols`, the FIRST fixed point
+(`_compute_seed_firsts`: rounds until nothing is added), the worklist closure, `_parallel_goto`,
+the breadth-first numbering of `_items`, the ACTION loop with its conflict check, goto trimming.
+It is compared **exactly** with the real generator on every grammar of the run (driver op `GEN`:
+item sets, numbering, conflict flag, tables).  The theorems below are about every grammar. -/
 
-/-- **Level B, closure/start.**  Every state of the generated automaton is closed under
-"`[A → α . X β, a]` brings `[X → . γ, c]` for all `c ∈ FIRST(β a)`" (FIRST = the generator's own
-fixed point), state 0 contains `[S' → . start, $]` and consists of dot-0 items only. -/
-theorem C08_gen_valid_partial {G : Grammar} {o : Gen.Out} (h : gen G = some o) :
-    VClosure (listMem o.cert) o.cert ∧ VStart (listMem o.cert) G o.cert :=
-  gen_closure_start h
+/-- **Level B: the generator is correct by construction.**  Whenever the generator model returns
+tables without conflicts, these tables — with the item sets it built, in the order it found the
+items, and its own FIRST table as certificate — satisfy all nine conditions of the validator:
+`Valid`.  (`WfG G`: the client's productions do not use the reserved symbols `$` and `S'`.)  So
+"the generator builds a parser for exactly the grammar's language" is a theorem about the
+generator model, not only a per-table validation. -/
+theorem C08_gen_valid {G : Grammar} {o : Gen.Out} (h : gen G = some o) (hW : WfG G)
+    (hc : o.conflicts = false) : Valid G o.aut o.cert :=
+  gen_valid h hW hc
+
+/-- **Level B: exactly the grammar's language, unambiguously, without exceptions** — the
+consequences of `C08_gen_valid` for the generated tables: the parser accepts `w` with tree `t`
+iff `t` is a derivation of `w`; a grammar with two derivations of one string is never
+conflict-free; the driver never raises on any token list. -/
+theorem C08_gen_correct {G : Grammar} {o : Gen.Out} (h : gen G = some o) (hW : WfG G)
+    (hc : o.conflicts = false) :
+    (∀ (w : List Token) (t : Tree), (∃ fuel, run o.aut fuel w = .accept t) ↔ Derives G t w) ∧
+    (∀ (w : List Token) (t₁ t₂ : Tree), Derives G t₁ w → Derives G t₂ w → t₁ = t₂) ∧
+    (∀ (w : List Token) (fuel : Nat) (m : String), run o.aut fuel w ≠ .internal m) :=
+  have hv := C08_gen_valid h hW hc
+  ⟨fun _ t => C08_accepts_iff hv t, fun _ _ _ h₁ h₂ => C08_unambiguous hv h₁ h₂,
+    fun w fuel m => C08_safe hv w fuel m⟩
+
+/-- **Level B: ambiguous grammars are reported.**  If some token string has two different
+derivations, the generator model reports conflicts. -/
+theorem C08_gen_ambiguous_conflicts {G : Grammar} {o : Gen.Out} (h : gen G = some o) (hW : WfG G)
+    {w : List Token} {t₁ t₂ : Tree} (h₁ : Derives G t₁ w) (h₂ : Derives G t₂ w) (hne : t₁ ≠ t₂) :
+    o.conflicts = true := by
+  cases hc : o.conflicts with
+  | true => rfl
+  | false => exact absurd (C08_unambiguous (C08_gen_valid h hW hc) h₁ h₂) hne
 
 /-- **Level B, `_closure_of_item`.**  The worklist closure contains its seed, is closed, and
 everything it adds is a dot-0 item that some item of the result brings in (no junk). -/
@@ -186,6 +207,8 @@ example : TermOK f10A := by decide
 -- parser has) and reports conflicts for the ambiguous `S → S a S | b`
 example : (gen exG).map (fun o => (o.conflicts, o.cert.items.size)) = some (false, exC.items.size) := by
   decide +kernel
+-- test: the hypotheses of `C08_gen_valid` are met by the example grammar
+example : WfG exG ∧ (gen exG).map (·.conflicts) = some false := ⟨by decide, by decide +kernel⟩
 example : (gen ⟨2, [⟨2, [2, 3, 2]⟩, ⟨2, [4]⟩], 1, 0⟩).map (·.conflicts) = some true := by decide +kernel
 example : (Gen.closure exC [⟨2, 0, 0⟩]).isSome = true := by decide
 example : Reduced exG :=
